@@ -55,6 +55,8 @@ def run(ch: Checker) -> None:
     ch.rule('C11.5', 'leaf generation: alt_subj_names = [text_(request.host)] reaches gen_public_key and sign_csr; sign_csr gets flags.ca_key_file / flags.ca_cert_file and puts them at -CAkey / -CA, '
                      'the extension file at -extfile; the cached-certificate test and the generation both happen inside `with self.lock`; client.wrap gets the generated path and the signing key', 5)
     ch.rule('C11.6', 'get_ext_config emits IP:<addr> when the name parses as an IP address and DNS:<name> otherwise', 1)
+    ch.rule('C11.8', 'who may consult the flags-only predicate: inside HttpProxyPlugin, `tls_interception_enabled` (configuration only) is read by _tls_intercept_enabled alone; '
+                     'every decision between "parse as HTTP" and "relay opaquely" uses _tls_intercept_enabled, which also honours a plugin\'s opt-out', 3)
     ch.rule('C11.7', '_tls_intercept_enabled returns False as soon as a plugin\'s do_intercept() is False and only considers plugins when interception is configured', 1)
 
     # ---------------- C11.1
@@ -89,7 +91,7 @@ def run(ch: Checker) -> None:
     # ---------------- C11.2
     wr = prog.own_method('TcpServerConnection', 'wrap')
     params = wr.params
-    gw = cfg_of(wr, prog, exc_edges=False)
+    gw = cfg_of(wr, prog)     # with exception edges: a handler that rebuilds the context differently is a path too
     res: Dict[str, Optional[Tuple[str, List[str]]]] = {'ctx': None, 'vm': None, 'ch': None, 'sni': None}
     seen = {'ctx': 0, 'vm': 0, 'ch': 0, 'sni': 0}
     for p in fpaths(gw):
@@ -303,6 +305,9 @@ def run(ch: Checker) -> None:
                             bad = ('a DNS: alternative name is emitted for a name that parsed as an IP address: clients reject the certificate for an IP host', p.describe())
     ch.check(bad is None and ip_ok and dns_ok, 'C11.6', gec, 'SAN type', 'IP: for address literals, DNS: otherwise', bad[0] if bad else 'the SAN type does not depend on whether the name is an IP address (IP branch %s, DNS fallback %s)' % (ip_ok, dns_ok), witness=bad[1] if bad else None)
 
+    # ---------------- C11.8
+    _who_reads_flags_only(ch)
+
     # ---------------- C11.7
     tie = prog.own_method('HttpProxyPlugin', '_tls_intercept_enabled')
     gt = cfg_of(tie, prog, exc_edges=False)
@@ -324,3 +329,23 @@ def run(ch: Checker) -> None:
             bad = ('interception is not configured but _tls_intercept_enabled returns %s' % rv[:60], p.describe())
     brk = any(isinstance(l, ast.For) and any(isinstance(b, ast.Break) for b in walk_no_nested(l)) for l in walk_no_nested(tie.node))
     ch.check(bad is None and n > 0 and brk, 'C11.7', tie, 'opt-out', 'plugin opt-out ends the loop and is returned', bad[0] if bad else 'the plugin loop does not stop at the first opt-out', witness=bad[1] if bad else None)
+
+
+def _who_reads_flags_only(ch: Checker) -> None:
+    prog = ch.prog
+    hp = prog.class_named('HttpProxyPlugin')
+    n = 0
+    for fn in hp.methods.values():
+        for a in walk_no_nested(fn.node):
+            if isinstance(a, ast.Attribute) and isinstance(a.ctx, ast.Load) and a.attr == 'tls_interception_enabled' and isinstance(a.value, ast.Name) and a.value.id == 'self':
+                n += 1
+                ch.check(fn.name == '_tls_intercept_enabled', 'C11.8', fn, 'self.tls_interception_enabled @%s' % fn.name, 'read inside the plugin-aware predicate only',
+                         '%s decides on `self.tls_interception_enabled`, which only looks at the configuration: a connection whose plugin opted out of interception (do_intercept() False) '
+                         'is then treated as intercepted here -- its opaque tunnel bytes are parsed as HTTP (and dropped with the connection when they do not parse), or it is handled '
+                         'differently from the other decision points' % fn.qualname, line=a.lineno)
+            if isinstance(a, ast.Attribute) and isinstance(a.ctx, ast.Load) and a.attr == '_tls_intercept_enabled' and isinstance(a.value, ast.Name) and a.value.id == 'self':
+                n += 1
+                ch.ok('C11.8', fn, 'self._tls_intercept_enabled @%s #%d' % (fn.name, n), 'plugin-aware predicate', line=a.lineno)
+            if isinstance(a, ast.Call) and attr_chain(a.func) == 'tls_interception_enabled':
+                n += 1
+                ch.bad('C11.8', fn, a, '%s calls tls_interception_enabled(flags) directly instead of the plugin-aware predicate' % fn.qualname, line=a.lineno)
